@@ -112,6 +112,6 @@ class Game():
                             else start_a - start_addr)
             text_end_a = (len(data)
                           if start_addr + len(data) < end_a
-                          else -(start_addr + len(data) - end_a))
+                          else end_a - start_addr)
             section_data[data_start_a:data_end_a] = \
                 data[text_start_a:text_end_a]
